@@ -104,6 +104,12 @@ EXTRA = [
         {"name": "fee", "type": ["null", "Dec8"], "default": None},
         {"name": "day", "type": {"type": "int", "logicalType": "date"}},
         {"name": "inner", "type": {"type": "record", "name": "Line", "fields": [{"name": "d", "type": "fin.Dec8"}, {"name": "k", "type": {"type": "enum", "name": "Kind", "symbols": ["A", "B"]}}, {"name": "k2", "type": "Kind"}]}}]},
+    {"type": "record", "name": "Ticket", "namespace": "tk", "fields": [
+        {"name": "id", "type": "int"},
+        {"name": "priority", "type": {"type": "enum", "name": "Level", "symbols": ["LOW", "MID", "HIGH"]}, "default": "LOW"},
+        {"name": "urgency", "type": "Level", "default": "HIGH"}, {"name": "impact", "type": "tk.Level", "default": "MID"},
+        {"name": "where", "type": {"type": "record", "name": "Pt", "fields": [{"name": "x", "type": "int"}]}, "default": {"x": -1}}, {"name": "dest", "type": "Pt", "default": {"x": 9}},
+        {"name": "tag", "type": {"type": "fixed", "name": "Tg", "size": 2}, "default": "ab"}, {"name": "tag2", "type": "Tg", "default": "cd"}]},
     {"type": "record", "name": "Outer", "namespace": "u", "fields": [
         {"name": "pick", "type": [
             {"type": "record", "name": "First", "fields": [{"name": "x", "type": "int"}]},
@@ -190,7 +196,23 @@ def schema_ops(fa, schema):
         finally:
             u.random = saved
 
-    return {"canonical": outcome(lambda: fa.schema.to_parsing_canonical_form(schema)), "generate": outcome(gen)}
+    def json_absent():
+        # JSON documents that leave out every defaulted field, and each single one
+        n = schema if isinstance(schema, dict) else None
+        if not (isinstance(n, dict) and n.get("type") == "record"):
+            return None
+        req = {}
+        for f in n["fields"]:
+            if "default" not in f:
+                if f["type"] in ("int", "long"):
+                    req[f["name"]] = 1
+                elif f["type"] == "string":
+                    req[f["name"]] = "s"
+                else:
+                    return None
+        return list(fa.json_reader(io.StringIO(json.dumps(req) + "\n" + json.dumps(req)), schema))
+
+    return {"canonical": outcome(lambda: fa.schema.to_parsing_canonical_form(schema)), "generate": outcome(gen), "json-absent-keys": outcome(json_absent)}
 
 
 def run_unit(i, tier):
